@@ -56,8 +56,10 @@ def sqrtMod (a p : Nat) : Option Nat := Id.run do
       s := s + 1
   -- a non-residue
   let mut z := 2
+  let mut found := false
   for _ in [0:1000] do
-    if powMod z ((p - 1) / 2) p = 1 then z := z + 1
+    if !found then
+      if powMod z ((p - 1) / 2) p = 1 then z := z + 1 else found := true
   let mut m := s
   let mut c := powMod z q p
   let mut t := powMod a q p
@@ -133,7 +135,8 @@ def curveOf (cache : RootCache) (P : NistParams) : Curve :=
 carry (pure optimisation). -/
 def prescan (cache : RootCache) (P : NistParams) (input : ByteArray) : RootCache := Id.run do
   let need := 256 * P.byteLen + 32
-  if input.size < need then return cache
+  -- only the standard layout (one-byte length prefix, five-byte curve name)
+  if input.size ≠ need + 16 then return cache
   let start := input.size - need
   let mut c := cache
   for i in [0:256] do
